@@ -234,3 +234,110 @@ def _bdd_collect(prop, res, tr, props=None):
     res.samples = [{k: v for k, v in o.items() if k != "dump"} for o in ops[20:23]] or [{"note": "no op records"}]
     res.assumptions = ["TLC evaluates RobddOps correctly", "the harness logs the real node table and (hook H1) the real memo tables (binding self-test: --selftest)",
                        "variables 0..nv-1 with nv <= 5 on the code side; NV = 2 closed state graph (any history) and NV = 3 bounded on the model side"]
+
+
+# ------------------------------------------------------------------ C11 / C14 (call histories on one Adf object)
+HIST_RULE = ("records = seeded call histories (2-10 public calls out of 15 kinds incl. every semantics, Rand with seeds, counting, extra "
+             "formulas on the shared diagram) on one Adf object (native / hybrid / hybrid without pre-grounding), each call repeated on a "
+             "fresh object, the whole history run twice; distinct = distinct (ADF text, call list); non-trivial = history contains at least "
+             "two semantics calls")
+
+
+def _hist_stats(res, tr):
+    seen = set()
+    ncalls = 0
+    samples = []
+    for line in tr["lines"]:
+        if '"kind":"hist"' not in line:
+            continue
+        r = json.loads(line)
+        ncalls += len(r["calls"])
+        if sum(1 for c in r["calls"] if c["c"] not in ("bddop", "formulacounts", "facet")) >= 2:
+            seen.add(hashlib.sha1(json.dumps([r["text"], [(c["c"], c["h"], c["seed"]) for c in r["calls"]]]).encode()).hexdigest())
+        if len(samples) < 3:
+            samples.append({"text": r["text"], "backend": r["backend"], "persist": r["persist"].get("how"),
+                            "calls": [{k: c[k] for k in ("c", "h", "a", "f")} for c in r["calls"][:4]]})
+    res.evaluations = ncalls
+    res.distinct = seen
+    res.samples = samples
+    res.rule = HIST_RULE
+
+
+def _collect_generic(prop, res, tr, component):
+    for gl, t in tr["tuples"]:
+        if gl is None:
+            continue
+        if t[0] == "MISMATCH" and t[3] == prop:
+            rec = json.loads(tr["lines"][gl - 1])
+            j = gl - 1
+            while j > 0 and not is_reset(tr["lines"][j]):
+                j -= 1
+            seq = [json.loads(x) for x in tr["lines"][j:gl]]
+            slim = [{k: v for k, v in s.items() if k not in ("dump",)} for s in seq[:-1]] + [seq[-1]]
+            res.violation("%s_%s" % (rec["id"], json.dumps(t[4])[:40]), {"property": prop, "component": component, "sequence": slim, "mismatch": t},
+                          "%s: %s on record %s (%s)" % (prop, json.dumps(t[4]), rec["id"], rec.get("text", "")))
+        elif t[0] == "DRIFT":
+            res.drift.append({"record": t[2], "what": t[3]})
+
+
+@register("C11")
+def check_c11(prop, tier, replay, selftest):
+    res = Result(prop, tier)
+    binary = build_harness()
+    out = os.path.join(WORK, "hist_C11.ndjson")
+    os.makedirs(WORK, exist_ok=True)
+    run_harness(binary, ["hist", "--tier", tier, "--out", out])
+    if selftest:
+        def corrupt(rec):
+            if rec.get("kind") != "hist":
+                return None
+            for c in rec["calls"]:
+                if c["c"] in ("grounded", "complete") and c["a"]:
+                    c["a"][0][0] = 1 if c["a"][0][0] != 1 else 0
+                    return rec
+            return None
+        ok = selftest_corrupt("Trace_Bdd", out, corrupt, boundary=is_reset)
+        print("SELFTEST %s: %s" % (prop, "binding demonstrated" if ok else "FAILED"))
+        return 0 if ok else 2
+    res.add_mc(require_mc(tlc_mc("Robdd", "Robdd_nv2.cfg", workers=12, timeout=900)))
+    tr = tlc_trace("Trace_Bdd", out, boundary=is_reset)
+    res.add_trace(tr)
+    _collect_generic(prop, res, tr, "hist")
+    _hist_stats(res, tr)
+    res.extra["drift_count"] = len(res.drift)
+    res.assumptions = ["TLC evaluates AdfSem / RobddOps correctly", "the harness logs the raw answers (handles included) of the library (binding self-test: --selftest)",
+                       "cache transparency on the model side = StepOK on every transition of the closed two-variable store graph (memo tables warm or cold)"]
+    return res.finish()
+
+
+@register("C14")
+def check_c14(prop, tier, replay, selftest):
+    res = Result(prop, tier)
+    binary = build_harness()
+    out = os.path.join(WORK, "hist_C14.ndjson")
+    os.makedirs(WORK, exist_ok=True)
+    run_harness(binary, ["hist", "--tier", tier, "--persist", "--out", out])
+    out2 = bdd_records(binary, tier, "C14")
+    if selftest:
+        def corrupt(rec):
+            if rec.get("kind") != "hist" or rec["persist"].get("how") == "none" or len(rec["persist"]["copy_nodes"]) < 4:
+                return None
+            rec["persist"]["copy_nodes"][-1][1] = (rec["persist"]["copy_nodes"][-1][1] + 1) % 2
+            return rec
+        ok = selftest_corrupt("Trace_Bdd", out, corrupt, boundary=is_reset)
+        print("SELFTEST %s: %s" % (prop, "binding demonstrated" if ok else "FAILED"))
+        return 0 if ok else 2
+    res.add_mc(require_mc(tlc_mc("Persist", "Persist_nv2.cfg", workers=12, timeout=1200)))
+    tr = tlc_trace("Trace_Bdd", out, boundary=is_reset)
+    res.add_trace(tr)
+    _collect_generic(prop, res, tr, "hist")
+    _hist_stats(res, tr)
+    tr2 = tlc_trace("Trace_Bdd", out2, boundary=is_reset)
+    res.add_trace(tr2)
+    _collect_generic(prop, res, tr2, "bdd")
+    npers = sum(1 for l in tr["lines"] + tr2["lines"] if '"kind":"persist"' in l)
+    res.extra["persist_points"] = npers
+    res.extra["drift_count"] = len(res.drift)
+    res.rule += "; for C14 a serde round trip + fix_import or a rebuild from the plain node list (as server/src/adf.rs does) happens at a random point of every history and the copy continues the same calls"
+    res.assumptions = ["TLC evaluates Persist / RobddOps / AdfSem correctly", "the harness performs the round trips exactly as bin/src/main.rs (serde_json + fix_import) and server/src/adf.rs (decimal strings, Bdd::from(Vec<BddNode>)) do"]
+    return res.finish()
